@@ -44,7 +44,7 @@ def lattice(f):
     return {'body': b, 'n': n, 'X': X, 'Y': Y, 'A': (Ax, Ay), 'B': (Bx, By), 'sx': sx}
 
 
-def run(ctx):
+def _run_rules(ctx):
     rep, f = ctx.rep, ctx.facts
     rep.trust('pk/sym.py + model table (f64 sin/cos, nalgebra Point/Translation/Transform ops); pk/poly.py')
     rep.assume('real-number semantics (rounding not decided); nalgebra Transform*Point is the affine action when '
@@ -287,8 +287,8 @@ def _images(ctx):
                 for o in outs:
                     sat = True
                     for c in o.pc:
-                        if c[0] == 'assume':
-                            continue
+                        if c[0] in ('assume', 'logcond'):
+                            continue        # (whether a log line is written does not select what is yielded: both outcomes are explored)
                         if c[0] in ('switch', 'switch-not') and c[1] == ('app', 'discr', (SYM(zname),)):
                             holds = (z == c[2]) if c[0] == 'switch' else (z not in c[2])
                             if not holds:
@@ -461,3 +461,12 @@ def flag_value(t, op):
         rv = o['rv']
         return ('struct', rv['adt'].replace('packing::', ''), (rv['variant'], rv['vi']), ())
     return None
+
+
+def run(ctx):
+    _run_rules(ctx)
+    from .common import import_obligations
+    # a cloned cell is the same lattice (C09.R3, Cell2)
+    import_obligations(ctx, 'C09', 'R5', only_rules={'R3'}, floor=1, only_instances=lambda k: 'Cell2' in k)
+    # the cell outline drawn next to the structure is the image of the unit square under the same map (C11.R7 corners)
+    import_obligations(ctx, 'C11', 'R6', only_rules={'R7'}, floor=1, only_instances=lambda k: 'corners' in k)
